@@ -20,6 +20,12 @@ VARIANTS = {
 VARIANTS["miri"] = {"launcher": ["cargo", "+nightly", "miri", "run", "--offline", "--bin", "vrun", "--"],
                     "env": {"MIRIFLAGS": "-Zmiri-disable-isolation"}}
 
+# Miri interpreting other targets (std for them is built from rust-src, offline): 32-bit little-endian, 32-bit big-endian, 64-bit
+# big-endian -- what the library's `usize` arithmetic and byte handling do where `usize` is 32 bits wide or the byte order differs
+for _name, _triple in (("miri-i686", "i686-unknown-linux-gnu"), ("miri-mips", "mips-unknown-linux-gnu"), ("miri-s390x", "s390x-unknown-linux-gnu")):
+    VARIANTS[_name] = {"launcher": ["cargo", "+nightly", "miri", "run", "--offline", "--target", _triple, "--bin", "vrun", "--"],
+                       "env": {"MIRIFLAGS": "-Zmiri-disable-isolation"}, "target_dir": "miri"}
+
 # the eight feature subsets (C16)
 for hist in (0, 1):
     for ac in (0, 1):
@@ -433,3 +439,19 @@ for _p, _wls in (("C14", ["C14", "C14-random"]), ("C02", ["C02-cli", "C02-accept
 for _p in ("C09", "C12"):
     PLANS[_p]["stages"].append({"custom": "declbatch", "profile": "rel", "batches_quick": [1, 24, 0], "batches_thorough": [4, 60, 0]})
     PLANS[_p]["rule"] += " One batch of 24 (quick) / four of 60 (thorough) declarations is also compiled and run on a release profile (no debug assertions, wrapping arithmetic)."
+
+# other targets under Miri: 32-bit and big-endian
+_C03_STAGES.insert(_C03_STAGES.index(next(st for st in _C03_STAGES if st.get("variant") == "miri" and st.get("workload") == "C03-lean")) + 1,
+                   {"variant": "miri-mips", "workload": "C03-lean", "args_quick": ["--scale", "0.25"], "args_thorough": ["--scale", "0.5"], "timeout_quick": 1500, "timeout_thorough": 7200})
+_C03_STAGES.insert(_C03_STAGES.index(next(st for st in _C03_STAGES if st.get("variant") == "miri-mips")) + 1,
+                   {"variant": "miri-i686", "workload": "C03-lean", "args_quick": ["--scale", "0.25"], "args_thorough": ["--scale", "0.5"], "timeout_quick": 1500, "timeout_thorough": 7200})
+_C03_STAGES.append({"variant": "miri-s390x", "workload": "C03-lean", "args_thorough": ["--scale", "0.5"], "timeout_thorough": 7200, "tiers": ["thorough"]})
+PLANS["C03"]["rule"] += (" The lean Miri driver also runs interpreted for a 32-bit big-endian target (mips-unknown-linux-gnu), a 32-bit little-endian one (i686) and, in the thorough tier, "
+                         "a 64-bit big-endian one (s390x): the same hostile sessions where `usize` is 32 bits wide and the byte order differs.")
+for _v, _tiers in (("miri", ["thorough"]), ("miri-mips", ["quick", "thorough"]), ("miri-i686", ["thorough"]), ("miri-s390x", ["thorough"])):
+    PLANS["C17"]["stages"].append({"variant": _v, "workload": "C17-sample", "tiers": _tiers, "timeout_quick": 1500, "timeout_thorough": 7200})
+PLANS["C17"]["rule"] += (" Sample stage: 290 (quick) / 1,250 (thorough) scalar values (first and last of every encoded length, both sides of the surrogate gap, edge octets, noncharacters, seeded random ones) "
+                         "through the pure helpers and, for a sixth of them, the Cli mini-session, interpreted by Miri for a 32-bit big-endian target (thorough: also the host, i686 and s390x): "
+                         "the same comparisons against core where pointers are 32 bits wide and the byte order differs, with every unsafe operation checked.")
+PLANS["C17"]["min_counts"]["quick"].update({"c17.sample.scalars": 250})
+PLANS["C17"]["min_counts"]["thorough"].update({"c17.sample.scalars": 4000})
